@@ -278,6 +278,9 @@ def run(prog, rep):
     # the next block is placed at offset + nBytes: it lands on this block's tail unless nBytes == bytes written
     from .c02 import size_identity
     rep.attempt(size_identity, prog, cd, rep, with_consumed=False)
+    # .. which identifies len(map) with len(items): true only while the two lists are mutated pairwise on every path
+    from .c01 import equivalence_discharge
+    equivalence_discharge(prog, cd, rep)
     # comments / labels reach the file unaltered only if the string writer refuses what does not fit instead of cutting it
     from .c13 import string_write_rules
     rep.attempt(string_write_rules, prog, rep)
@@ -285,4 +288,9 @@ def run(prog, rep):
     from .. import primitives as PR
     rep.attempt(PR.string_codec, prog, rep)
     rep.attempt(PR.date_codec, prog, rep)
+    # a refused add/remove inside a history must leave table and file as they were: a phantom entry left in the table is
+    # re-serialised (or "removed") by the next call, over the neighbours' bytes
+    from ..codecs import Codecs as _Codecs
+    from .c07 import path_rules
+    rep.attempt(path_rules, ct, _Codecs(prog), rep, names=("add_block", "remove_block"), include_setters=False, prefix="refusal-leaves-table/")
     rep.not_decided += ["byte equality of moved payloads under concrete histories", "datetime <-> 32-bit timestamp corner cases (DST folds, 2038)"]
